@@ -126,7 +126,10 @@ CLAIMED = {
             "kernel found in the source has exactly L edges (linspace by construction; numpy.arange((hmax-hmin)/L) decided in Float64 for every double "
             "range); optimal_grouping with the random restart = ANY sorted distinct split set: exactly L layers (L=1 included), total Cn2, heights are "
             "input heights in increasing order, cost no worse than the equal split (N=3 fully symbolic, N=4..5 irregular concrete heights with "
-            "symbolic strengths), also right after a call with another symbolic profile on the same heights (no cost carried over). NOT claimed: GCTM (scipy.optimize.minimize)",
+            "symbolic strengths), also right after a call with another symbolic profile on the same heights (no cost carried over); GCTM's wrapper with "
+            "scipy.optimize.minimize replaced by 'returns ANY vector within the bounds it is given': exactly L layers, 2L non-negative variables, the start "
+            "carries the input's total Cn2, and the objective handed to the optimiser, evaluated at the optimiser's answer, IS the squared residual of the "
+            "first 2L-1 scaled moments of the layers GCTM returns (symbolic scalings). NOT claimed: how small the optimiser makes that residual",
             "numba's _Gjit executed as its Python source; paths with an empty slab (0/0) not examined."),
     "C19": ("5 C19", "calculate_structure_function on symbolic phase: entry j = mean squared difference at lag j*step along axis 0, 0 at lag 0 "
             "(numpy.empty = arbitrary values), ramp -> a^2 (j step)^2, quadratic in amplitude (shapes to 8x8 quick / 12x12 thorough, steps 1-4); "
